@@ -3623,3 +3623,215 @@ mod tests {
         }
     }
 }
+
+/// Hooks for the out-of-tree verification harness (property C13). Compiled only
+/// with the `verif` feature; thin public wrappers around the crate-private table
+/// API plus read-only snapshots. Adds no behaviour.
+#[cfg(feature = "verif")]
+pub mod verif {
+    use super::*;
+
+    /// A read-only copy of the bookkeeping of one subscription.
+    #[derive(Clone, Debug, PartialEq, Eq)]
+    pub struct SubSnapshot {
+        pub id: u32,
+        pub fab_idx: u8,
+        pub peer_node_id: u64,
+        pub min_int_secs: u16,
+        pub max_int_secs: u16,
+        pub reported_at: Instant,
+        pub retry_at: Instant,
+        pub fail_count: u8,
+        pub max_seen_attr_change_id: u64,
+        pub max_seen_event_number: u64,
+    }
+
+    /// A read-only copy of one entry of the pending-change table; `None` = wildcard.
+    #[derive(Clone, Debug, PartialEq, Eq)]
+    pub struct ChangeSnapshot {
+        pub endpoint: Option<EndptId>,
+        pub cluster: Option<ClusterId>,
+        pub attr: Option<AttrId>,
+        pub change_id: u64,
+    }
+
+    impl Subscription {
+        pub fn verif_snapshot(&self) -> SubSnapshot {
+            SubSnapshot {
+                id: self.ids.id,
+                fab_idx: self.ids.fab_idx.get(),
+                peer_node_id: self.ids.peer_node_id,
+                min_int_secs: self.min_int_secs,
+                max_int_secs: self.max_int_secs,
+                reported_at: self.reported_at,
+                retry_at: self.retry_at,
+                fail_count: self.fail_count,
+                max_seen_attr_change_id: self.max_seen_attr_change_id,
+                max_seen_event_number: self.max_seen_event_number,
+            }
+        }
+    }
+
+    impl<const N: usize> Subscriptions<N> {
+        pub fn verif_notify_attr_changed(&self, endpoint: EndptId, cluster: ClusterId, attr: AttrId) {
+            self.notify_attr_changed(endpoint, cluster, attr)
+        }
+
+        pub fn verif_notify_cluster_changed(&self, endpoint: EndptId, cluster: ClusterId) {
+            self.notify_cluster_changed(endpoint, cluster)
+        }
+
+        pub fn verif_notify_endpoint_changed(&self, endpoint: EndptId) {
+            self.notify_endpoint_changed(endpoint)
+        }
+
+        pub fn verif_notify_all_changed(&self) {
+            self.notify_all_changed()
+        }
+
+        pub fn verif_clear(&self) {
+            self.clear()
+        }
+
+        #[allow(clippy::too_many_arguments)]
+        pub fn verif_add<'a, 's, B>(
+            &'s self,
+            now: Instant,
+            fabric_idx: NonZeroU8,
+            peer_node_id: u64,
+            min_int_secs: u16,
+            max_int_secs: u16,
+            event_numbers_watermark: EventNumber,
+            buffer: B::Buffer<'a>,
+            buffers: &'s SubscriptionsBuffers<'a, B, N>,
+        ) -> Option<ReportContext<'a, 's, B, N>>
+        where
+            B: Buffers<IMBuffer> + 'a,
+        {
+            self.add(
+                now,
+                fabric_idx,
+                peer_node_id,
+                min_int_secs,
+                max_int_secs,
+                event_numbers_watermark,
+                buffer,
+                buffers,
+            )
+        }
+
+        pub fn verif_remove<B, F>(&self, buffers: &SubscriptionsBuffers<'_, B, N>, f: F) -> bool
+        where
+            B: Buffers<IMBuffer>,
+            F: FnMut(&Subscription) -> Option<&'static str>,
+        {
+            self.remove(buffers, f)
+        }
+
+        pub fn verif_report<'a, 's, B>(
+            &'s self,
+            now: Instant,
+            event_numbers_watermark: EventNumber,
+            buffers: &'s SubscriptionsBuffers<'a, B, N>,
+        ) -> Option<ReportContext<'a, 's, B, N>>
+        where
+            B: Buffers<IMBuffer> + 'a,
+        {
+            self.report(now, event_numbers_watermark, buffers)
+        }
+
+        pub fn verif_next_report_at<'a, B>(
+            &self,
+            event_numbers_watermark: EventNumber,
+            buffers: &SubscriptionsBuffers<'a, B, N>,
+        ) -> Instant
+        where
+            B: Buffers<IMBuffer> + 'a,
+        {
+            self.next_report_at(event_numbers_watermark, buffers)
+        }
+
+        pub fn verif_purge_reported_changes(&self) {
+            self.purge_reported_changes()
+        }
+
+        /// Visit every subscription in the table together with its stored request bytes.
+        pub fn verif_for_each<'a, B, F>(&self, buffers: &SubscriptionsBuffers<'a, B, N>, mut f: F)
+        where
+            B: Buffers<IMBuffer> + 'a,
+            F: FnMut(&SubSnapshot, &[u8]),
+        {
+            self.with(buffers, |state, buffers| {
+                for (sub, rx) in state.subscriptions.iter().zip(buffers.iter()) {
+                    f(&sub.verif_snapshot(), rx.as_ref());
+                }
+            })
+        }
+
+        /// `(subscriptions_count, snapshot of the `reporting` slot, reporting_cancelled.is_some())`
+        pub fn verif_slots(&self) -> (usize, Option<SubSnapshot>, bool) {
+            self.state.lock(|state| {
+                let state = state.borrow();
+                (
+                    state.subscriptions_count,
+                    state.reporting.as_ref().map(|s| s.verif_snapshot()),
+                    state.reporting_cancelled.is_some(),
+                )
+            })
+        }
+
+        /// The largest change id handed out so far.
+        pub fn verif_change_watermark(&self) -> u64 {
+            self.state
+                .lock(|state| state.borrow().changed_attrs.watermark())
+        }
+
+        /// Visit every entry of the pending-change table.
+        pub fn verif_for_each_change<F>(&self, mut f: F)
+        where
+            F: FnMut(&ChangeSnapshot),
+        {
+            self.state.lock(|state| {
+                for e in state.borrow().changed_attrs.entries.iter() {
+                    f(&ChangeSnapshot {
+                        endpoint: (!e.is_endpoint_wildcard()).then_some(e.endpoint),
+                        cluster: (!e.is_cluster_wildcard()).then_some(e.cluster),
+                        attr: (!e.is_attr_wildcard()).then_some(e.attr),
+                        change_id: e.change_id,
+                    });
+                }
+            })
+        }
+
+        /// `ChangedAttrs::contains_since` of the live table.
+        pub fn verif_contains_since(
+            &self,
+            endpoint: EndptId,
+            cluster: ClusterId,
+            attr: AttrId,
+            since: u64,
+        ) -> bool {
+            self.state.lock(|state| {
+                state
+                    .borrow()
+                    .changed_attrs
+                    .contains_since(endpoint, cluster, attr, since)
+            })
+        }
+    }
+
+    impl<'a, 's, B, const N: usize> ReportContext<'a, 's, B, N>
+    where
+        B: Buffers<IMBuffer> + 'a,
+    {
+        /// Snapshot of the subscription held by this context (as it was when moved out).
+        pub fn verif_sub(&self) -> SubSnapshot {
+            self.subscription().verif_snapshot()
+        }
+
+        /// The change-id watermark this context commits when the report is kept.
+        pub fn verif_next_max_seen_attr_change_id(&self) -> u64 {
+            self.next_max_seen_attr_change_id
+        }
+    }
+}
